@@ -14,7 +14,10 @@ def configs(tier):
     complete = [mk('prefetch', 1, 1, 4), mk('prefetch', 1, 1, 5), mk('prefetch', 1, 2, 5),
                 mk('parmap', 1, 1, 4), mk('parmap', 1, 1, 5), mk('parmap', 1, 2, 5), mk('parmap', 1, 2, 6),
                 mk('parmap', 1, 1, 4, 'dill_mp'), mk('parmap', 1, 2, 5, 'dill_mp'),
-                mk('prefetch', 2, 2, 4), mk('parmap', 2, 2, 4), mk('prefetch', 2, 2, 3, 'dill_mp')]
+                mk('prefetch', 2, 2, 4), mk('parmap', 2, 2, 4), mk('prefetch', 2, 2, 3, 'dill_mp'),
+                mk('prefetch', 1, 1, 4, 'multiprocessing'), mk('parmap', 1, 2, 5, 'multiprocessing'),
+                mk('prefetch', 1, 2, 5, 'concurrent_mp'), mk('parmap', 1, 1, 4, 'concurrent_mp'),
+                mk('prefetch', 1, 1, 4, 'mp'), mk('parmap', 1, 2, 5, 'mp')]
     complete += [dict(mk('parmap', 1, 1, 4), copy_first=True), dict(mk('parmap', 2, 2, 5), copy_first=True),
                  dict(mk('prefetch', 1, 1, 4), copy_first=True), dict(mk('prefetch', 2, 2, 4), copy_first=True)]
     bounded = [mk('prefetch', 1, 2, 6), mk('prefetch', 2, 2, 5), mk('prefetch', 2, 2, 6),
